@@ -233,6 +233,29 @@ def check_nodes_variants(s, pos, res):
         return (shifted_dump(body, shift), p0, (env.pos_end + shift) - p0)
     compare('get_latex_nodes(stop_upon_end_environment)', attempt(legacy_env), attempt(new_env),
             res, case)
+    # (2b) two stop conditions in one call: the list ends at whichever stop token comes first, i.e.
+    # (strict walkers) it is what the one single-condition formulation that succeeds gives
+    if not _MODE['tolerant']:
+        case = {'what': 'nodes', 's': s, 'pos': pos, 'variant': 'combined-stops', 'arg': '}+x'}
+
+        def legacy_c():
+            nl, p, l = walker(s).get_latex_nodes(pos, stop_upon_closing_brace='}',
+                                                 stop_upon_end_environment='x')
+            return (shifted_dump(nl, 0), p, l)
+
+        def new_brace():
+            w2 = walker('{' + rest)
+            g, _ = w2.parse_content(P.LatexDelimitedGroupParser(delimiters=('{', '}')))
+            shift = pos - 1
+            nl = g.nodelist
+            p0 = nl.pos + shift if nl.pos is not None else None
+            return (shifted_dump(nl, shift), p0, (g.pos_end + shift) - p0)
+        a, b = attempt(new_brace), attempt(new_env)
+        if (a[0] == 'ok') != (b[0] == 'ok'):
+            compare('get_latex_nodes(closing_brace+end_environment)', attempt(legacy_c),
+                    a if a[0] == 'ok' else b, res, case)
+        elif a[0] != 'ok' and b[0] != 'ok' and a[0] != 'exc' and b[0] != 'exc':
+            compare('get_latex_nodes(closing_brace+end_environment)', attempt(legacy_c), a, res, case)
     # (3) closing math mode, state already in that math mode
     for opener, closer in (('$', '$'), ('$$', '$$'), ('\\(', '\\)'), ('\\[', '\\]')):
         case = {'what': 'nodes', 's': s, 'pos': pos, 'variant': 'closing-mathmode', 'arg': closer}
